@@ -96,6 +96,71 @@ theorem invariant_partial (hrw : RwOk c.rw) (hct : c.Plain) (w h : Int) (ops : L
     wd.trusted = true → SyncInv c wd.d wd.sw.s wd.t :=
   fun ht => (reach_inv hrw hct w h ops hv).tr ht
 
+/-! ## the corner-trick family: every terminal description, the four bottom-right insert-character entries included
+
+`hct : c.Walk` asks nothing about `c.cornerTrick`.  The trick branch of drawCell (write the corner glyph at column w-2,
+`ich1`, repaint the cell that covers column w-2 — `Scr.drawCell`, `Scr.cornerPx`, with the cover repaint of fix 2b80961)
+is carried through the cross-Show invariant (`Lemmas/DrawCorner.lean: visit_corner`) on the abstract terminal whose
+`insertChar` is ICH (`ATerm.insertAt`).  The honest SIDE CONDITION is `World.SafeRun` / `World.SafeAt`
+(Lemmas/World.lean; decidable, `cornerSafeB`): at every Show / Sync / noticed resize on a terminal that needs the trick,
+the screen has at least two columns and **no cell of its last row is locked**.  It is vacuous for `cornerTrick = false`
+(`World.SafeRun.of_plain`), so this family subsumes the one above.  Why the whole last row and not only the neighbour:
+`corner_trick_lock_desync` below — one locked cell far to the left can put drawCell's `px` loop (stored widths) out of
+phase with the draw loop (which steps over a wide rune beside a locked cell by one column), and then the trick destroys
+a clean unlocked wide rune.  With the neighbour itself locked the trick writes into a locked cell (open finding
+C13-corner-trick-locked-neighbour).  `_partial`: Layer A only, and the side condition (incl. a screen one column wide,
+where the trick degenerates). -/
+
+theorem show_faithful_corner_partial (hrw : RwOk c.rw) (hct : c.Walk) (w h : Int) (ops : List ScrOp)
+    (hv : ∀ op ∈ ops, op.Valid c) (hsafe : World.SafeRun c (World.init w h) ops)
+    (hlast : ((World.init w h).run c ops).SafeAt c .show) :
+    let wd := (World.init w h).run c ops
+    (wd.trusted = true ∨ ¬ (wd.sw.ttyw = wd.sw.s.w ∧ wd.sw.ttyh = wd.sw.s.h)) →
+      Displays c (wd.sw.s.resize (some (wd.sw.ttyw, wd.sw.ttyh))).cells (wd.step c .show) :=
+  fun h' => (show_step_c hrw hct (reach_inv_c hrw hct w h ops hv hsafe) hlast).2 h'
+
+theorem sync_faithful_corner_partial (hrw : RwOk c.rw) (hct : c.Walk) (w h : Int) (ops : List ScrOp)
+    (hv : ∀ op ∈ ops, op.Valid c) (hsafe : World.SafeRun c (World.init w h) ops)
+    (hlast : ((World.init w h).run c ops).SafeAt c .sync) :
+    let wd := (World.init w h).run c ops
+    Displays c (wd.sw.s.prepSync (some (wd.sw.ttyw, wd.sw.ttyh))).cells (wd.step c .sync) ∧ (wd.step c .sync).trusted = true ∧
+      (wd.step c .sync).d = some (wd.step c .sync).sw.s.style :=
+  (sync_step_c hrw hct (reach_inv_c hrw hct w h ops hv hsafe) hlast).2
+
+theorem resize_faithful_corner_partial (hrw : RwOk c.rw) (hct : c.Walk) (w h : Int) (ops : List ScrOp)
+    (hv : ∀ op ∈ ops, op.Valid c) (hsafe : World.SafeRun c (World.init w h) ops) (w' h' : Int)
+    (hlast : ((World.init w h).run c ops).SafeAt c (.ttyResizeNotify w' h')) :
+    let wd := (World.init w h).run c ops
+    Displays c (wd.sw.s.prepResize (some (w', h'))).cells (wd.step c (.ttyResizeNotify w' h')) ∧
+      (wd.step c (.ttyResizeNotify w' h')).trusted = true ∧
+      (wd.step c (.ttyResizeNotify w' h')).d = some (wd.step c (.ttyResizeNotify w' h')).sw.s.style :=
+  (notify_step_c hrw hct (reach_inv_c hrw hct w h ops hv hsafe) w' h' hlast).2
+
+theorem resize_noticed_by_show_corner_partial (hrw : RwOk c.rw) (hct : c.Walk) (w h : Int) (ops : List ScrOp)
+    (hv : ∀ op ∈ ops, op.Valid c) (hsafe : World.SafeRun c (World.init w h) ops) (w' h' : Int)
+    (hne : ¬ (w' = ((World.init w h).run c ops).sw.s.w ∧ h' = ((World.init w h).run c ops).sw.s.h))
+    (hlast : (((World.init w h).run c ops).step c (.ttyResizeQuiet w' h')).SafeAt c .show) :
+    let wd := ((World.init w h).run c ops).step c (.ttyResizeQuiet w' h')
+    Displays c (wd.sw.s.resize (some (wd.sw.ttyw, wd.sw.ttyh))).cells (wd.step c .show) := by
+  intro wd
+  have hv' : ∀ op ∈ ops ++ [ScrOp.ttyResizeQuiet w' h'], op.Valid c := by
+    intro op ho; rcases List.mem_append.1 ho with ho | ho
+    · exact hv op ho
+    · simp only [List.mem_singleton] at ho; subst ho; trivial
+  have inv := reach_inv_c hrw hct w h (ops ++ [ScrOp.ttyResizeQuiet w' h']) hv' (World.SafeRun.append ops _ _ hsafe trivial)
+  simp only [World.run, List.foldl_append, List.foldl_cons, List.foldl_nil] at inv
+  exact (show_step_c hrw hct inv hlast).2 (Or.inr hne)
+
+theorem invariant_corner_partial (hrw : RwOk c.rw) (hct : c.Walk) (w h : Int) (ops : List ScrOp)
+    (hv : ∀ op ∈ ops, op.Valid c) (hsafe : World.SafeRun c (World.init w h) ops) :
+    let wd := (World.init w h).run c ops
+    wd.trusted = true → SyncInv c wd.d wd.sw.s wd.t :=
+  fun ht => (reach_inv_c hrw hct w h ops hv hsafe).tr ht
+
+/-- the corner family contains the plain one: without the trick the side condition holds for every history -/
+theorem safeRun_of_plain (hct : c.Plain) (wd : World) (ops : List ScrOp) : World.SafeRun c wd ops :=
+  World.SafeRun.of_plain hct ops wd
+
 /-- Trust is only ever lost to the environment: library operations keep it. -/
 theorem trusted_kept (wd : World) (op : ScrOp) (ht : wd.trusted = true)
     (hop : match op with | .ttyResizeQuiet _ _ => False | .corrupt => False | _ => True) :
@@ -153,5 +218,58 @@ example : (((World.init 3 1).run cfgGuard opsGuard).step cfgGuard .show).t.grid 
 example : (((World.init 3 1).run cfgGuard opsGuard).step cfgGuard .show).t.grid 1 0 = .shown [0x62] false {} := by decide +kernel
 example : (((World.init 3 1).run cfgGuard (opsGuard ++ [.show, .lockRegion 1 0 1 1 false])).step cfgGuard .show).t.grid 0 0 =
     .shown [0xe4, 0xb8, 0x96] true {} := by decide +kernel
+
+/-! non-vacuity of the corner family: a 4×2 screen on a terminal that needs the trick (`cornerTrick := true`, the tree as it
+is), a wide rune in the last row covering the second to last column, a locked cell in the FIRST row (allowed).  The corner
+cell is changed between two Shows: the second Show runs the trick (write at column 2, ich1, repaint the wide rune at
+column 1 which covers column 2). -/
+
+def cfgCorner : DrawCfg := { cfgDemo with cornerTrick := true, guardLocked := true, walkGuard := true }
+theorem cfgCorner_walk : cfgCorner.Walk := ⟨fun _ => rfl⟩
+
+def opsCorner : List ScrOp :=
+  [.setContent 0 1 0x61 [] {}, .setContent 1 1 0x4e16 [] {}, .setContent 3 1 0x5a [] {}, .lockRegion 0 0 1 1 true, .show,
+   .setContent 3 1 0x59 [] { fg := 2^32 + 1 }]
+
+example : ∀ op ∈ opsCorner, op.Valid cfgCorner := by simp [opsCorner, ScrOp.Valid, attrInvalid]
+theorem opsCorner_safe : World.SafeRun cfgCorner (World.init 4 2) opsCorner :=
+  ⟨trivial, trivial, trivial, trivial, cornerSafe_of_B (by decide +kernel), trivial, trivial⟩
+theorem opsCorner_safe_show : ((World.init 4 2).run cfgCorner opsCorner).SafeAt cfgCorner .show :=
+  cornerSafe_of_B (by decide +kernel)
+example : ((World.init 4 2).run cfgCorner opsCorner).trusted = true := by decide
+example : cfgCorner.cornerTrick = true := rfl
+-- the corner cell is dirty, so this Show runs the trick; the `px` loop finds the wide rune at column 1
+example : ((World.init 4 2).run cfgCorner opsCorner).sw.s.cells.dirty 3 1 = true := by decide +kernel
+example : Scr.coverStart ((World.init 4 2).run cfgCorner opsCorner).sw.s.cells 1 3 0 3 = 1 := by decide +kernel
+-- afterwards: the new glyph in the corner, the wide rune intact on columns 1-2, 'a' untouched, cursor parked at home
+example : (((World.init 4 2).run cfgCorner opsCorner).step cfgCorner .show).t.grid 3 1 = .shown [0x59] false { fg := 2^32 + 1 } := by
+  decide +kernel
+example : (((World.init 4 2).run cfgCorner opsCorner).step cfgCorner .show).t.grid 1 1 = .shown [0xe4, 0xb8, 0x96] true {} := by
+  decide +kernel
+example : (((World.init 4 2).run cfgCorner opsCorner).step cfgCorner .show).t.grid 2 1 = .cont := by decide +kernel
+example : (((World.init 4 2).run cfgCorner opsCorner).step cfgCorner .show).t.grid 0 1 = .shown [0x61] false {} := by decide +kernel
+-- the theorem applies
+example := show_faithful_corner_partial (c := cfgCorner) (by exact rwDemo_ok) cfgCorner_walk 4 2 opsCorner
+  (by simp [opsCorner, ScrOp.Valid, attrInvalid]) opsCorner_safe opsCorner_safe_show
+
+/-- **Why the side condition speaks about the whole last row** (8×1 screen, the tree as it is + the trick): the cell at column 1
+is locked and holds a wide rune, column 0 holds a wide rune (painted as a blank of width 1, the draw loop steps by ONE
+column there), columns 2…5 hold wide runes, column 6 a narrow one.  The draw loop visits 0,1,3,5,7; drawCell's `px`
+loop walks by stored widths 0,2,4,6 and picks column 6 — a cell the display does not show (it is the right half of the rune
+at column 5).  The trick writes the corner glyph over that right half and repaints column 6: the clean, unlocked, visited
+wide rune at column 5 is destroyed (`garbage`) though no lock is anywhere near the corner.  Model-level witness (the model
+is tied to tscreen.go by the byte-exact correspondence).  NOT listed as a finding: the two walks can only get out of phase
+when a wide rune is stored in the hidden right half of another one (overlapping wide runes), cells the draw oracle
+deliberately does not judge (`./check C01 --replay` of this history reports nothing); it is the reason why the invariant
+cannot be carried with only the neighbour of the corner unlocked.  Related: open finding C13-corner-trick-locked-neighbour. -/
+theorem corner_trick_lock_desync :
+    let ops : List ScrOp := [.setContent 0 0 0x4e16 [] {}, .setContent 1 0 0x4e16 [] {}, .setContent 2 0 0x4e16 [] {},
+      .setContent 3 0 0x4e16 [] {}, .setContent 4 0 0x4e16 [] {}, .setContent 5 0 0x4e16 [] {}, .setContent 6 0 0x78 [] {},
+      .setContent 7 0 0x5a [] {}, .lockRegion 1 0 1 1 true, .show]
+    let wd := (World.init 8 1).run cfgCorner ops
+    wd.t.grid 5 0 = .garbage ∧ wd.sw.s.cells.dirty 5 0 = false ∧ wd.sw.s.cells.locked 5 0 = false ∧
+      visitedG cfgCorner ((World.init 8 1).run cfgCorner (ops.take 9)).sw.s.cells 5 0 = true ∧
+      wd.sw.s.cells.locked 6 0 = false ∧ wd.sw.s.cells.locked 7 0 = false ∧ wd.trusted = true := by
+  decide +kernel
 
 end Tcell.Props.C01
